@@ -804,6 +804,9 @@ func runC16(t *testing.T, rng *rand.Rand, rec *sim.Rec, tier string, caseNo int)
 		TCPListeners: []*net.TCPAddr{{IP: sim.ServerIP4, Port: 3478}},
 		UDPListeners: []*net.UDPAddr{{IP: sim.ServerIP4, Port: 3478}},
 		DenyPeerIPs:  []string{"10.2.8.8"},
+		// every other case the server sees its TCP connections as bare net.Conn values (as behind a
+		// TLS listener or any wrapping transport): the relay's copy loops then use their own buffers
+		PlainConns: caseNo%2 == 1,
 	}
 	w, err := sim.NewWorld(cfg, rec, rng, true)
 	if err != nil {
